@@ -120,7 +120,8 @@ def compile_pattern(pattern):
             if len(parts) == parts_len:
                 if parts[-1] == '[':
                     # Empty group - will never match
-                    parts[-1] = '(?:$.)'
+                    # ('(?:$.)' would match a newline at the end of the string under re.S)
+                    parts[-1] = '(?!)'
                 else:
                     # Negated empty group - matches any character
                     assert parts[-1] == '^'
